@@ -92,6 +92,15 @@ THEOREMS.update({
     "C07_cli_metric_is_configured": "whenever the translated command writes its file: the class named by --distance-metric was found, the --distance-metric-param items were cast by its required-argument annotations, construct on that class and EXACTLY those parameters gave the metric, and the file holds what the library computes with that metric (an option that is dropped or ignored contradicts this)",
     "C07_cli_defaulted_metric_param_is_key_error": "observation, outside the property: a --distance-metric-param key naming an __init__ argument that has a default is a KeyError (types are looked up among required arguments only) - so MSEDistance's only option sigmoid cannot be given on the command line",
 })
+THEOREMS.update({
+    "C07_hand_built_incomplete_refused": "gap review G7.1: ANY matrix whose stored keys are distinct, strictly lower-triangular and in range (= what add_value calls in any order build) and that misses a pair refuses to densify",
+    "C07_hand_built_complete_densifies": "such a matrix with every pair stored densifies to the symmetric zero-diagonal matrix of its values",
+    "C07_to_dense_accepts_ill_formed_refuted": "the side condition is needed: add_value accepts a diagonal key and is_complete counts entries, so ChunkedDistanceMatrix(3) + add_value(1,1,5), (2,2,7), (1,0,3) densifies with two pairs missing and a non-zero diagonal (witness replayed on the implementation: extra check props-witness-ill-formed-densified); outside the property's quantifier",
+})
+RULE += ("  script (gap review G7.1): now with a predicate - a to_dense on a hand-built matrix whose stored keys are distinct, strictly lower-triangular and in range must refuse iff a pair is missing and "
+         "otherwise give the symmetric zero-diagonal matrix of the stored values; a dedicated stream adds all pairs of a size 2-5 matrix by hand in random order over one or two objects "
+         "(one pair left out / a diagonal, repeated or out-of-range key thrown in), concat, save + load, is_complete, to_dense; matrices with a diagonal / repeated key are tagged, not judged.  "
+         "mse_edge (gap review G7.3): +-inf predictions and predictions of unequal lengths, outcome of the unchanged tree written down in _run_mse_edge (NaN for identical +-inf without sigmoid; a length-1 vector is broadcast).")
 RULE += ("  cli (gap review G7.2 + seeded C07-m9): several --thetas files whose command-line order differs from the lexicographic order of their paths "
          "(12 single-sample files chain_0..chain_11 in numeric order, 3 files reversed, random shuffles; distinct predictions per posterior sample), 1 and several chunks: entry (i,j) of the assembled "
          "matrix = the configured metric on posterior samples i and j in COMMAND-LINE order (chain-major); --distance-metric-param on a harness-defined DistanceMetric with required "
@@ -179,6 +188,10 @@ def gen(rng, tier):
     # scripts of ChunkedDistanceMatrix calls, real class vs translated methods (driver op 5)
     for _ in range(150 if tier == "quick" else 1500):
         yield dict(kind="script", script=_gen_script(rng))
+    # hand-built matrices (gap review G7.1): all pairs of a size-n matrix added by hand in a random order over one or two
+    # objects (one pair possibly left out, a diagonal / repeated / out-of-range key possibly thrown in), concat, save + load, to_dense
+    for _ in range(60 if tier == "quick" else 600):
+        yield dict(kind="script", script=_gen_hand_built(rng))
     # the CLI wrapper, in-process, on real Screen / ThetaHolder files (implementation-only predicate)
     for _ in range(6 if tier == "quick" else 40):
         n1, n2 = rng.randint(1, 3), rng.randint(0, 3)
@@ -198,6 +211,17 @@ def gen(rng, tier):
         a = mk()
         b = rng.choice([mk(), list(a)])
         yield dict(kind="mse", sigmoid=rng.random() < 0.5, a=a, b=b)
+    # gap review G7.3: inputs the pipeline never produces (predictions are clipped viabilities of ONE screen), with the outcome
+    # of the unchanged tree written down: non-finite predictions, predictions of unequal lengths
+    for _ in range(12 if tier == "quick" else 80):
+        m = rng.choice([1, 2, 3, 5])
+        if rng.random() < 0.5:
+            a = [rng.choice(["inf", "-inf", "inf", "1.5", "0.0"]) for _ in range(m)]
+            b = list(a) if rng.random() < 0.6 else [rng.choice(["inf", "-inf", "2.0"]) for _ in range(m)]
+        else:
+            a = [repr(rng.randint(-16, 16) / 8.0) for _ in range(m + rng.choice([1, 2]))]
+            b = [repr(rng.randint(-16, 16) / 8.0) for _ in range(rng.choice([1, 1, m]))]
+        yield dict(kind="mse_edge", sigmoid=rng.random() < 0.5, a=a, b=b)
 
 
 def _distinct_alphas(rng, n):
@@ -263,6 +287,42 @@ def _gen_cli_files(rng, tier):
         npairs = n * (n - 1) // 2
         c = rng.choice([1, 2, 3, npairs + 1]) if n <= 6 else rng.choice([1, 2, 3])
         yield case(names, chains, c, mparam=mparam(), repeat=rng.choice([0, 0, 1]))
+
+
+def _gen_hand_built(rng):
+    n = rng.choice([2, 3, 3, 4, 4, 5])
+    pairs = [(i, j) for i in range(n) for j in range(i)]
+    rng.shuffle(pairs)
+    flavour = rng.choice(["complete", "complete", "missing", "missing", "diagonal", "repeat", "range"])
+    if flavour == "missing":
+        pairs = pairs[:-rng.randint(1, min(2, len(pairs)))]
+    two = rng.random() < 0.4 and len(pairs) >= 2
+    cut = rng.randint(1, len(pairs) - 1) if two else len(pairs)
+    room = len(pairs) + 3
+    cmds = [[0, n, 1, 0, [room]]] + ([[0, n, 1, 0, [room]]] if two else [])
+    vals = rng.sample(range(0, 40), len(pairs))          # distinct values (0 included): a misplaced entry shows
+    adds = [[1, 0 if k < cut else 1, i, j, vals[k]] for k, (i, j) in enumerate(pairs)]
+    if flavour == "diagonal":
+        a = rng.randrange(n)
+        adds.insert(rng.randint(0, len(adds)), [1, 0, a, a, 17])
+        if rng.random() < 0.5 and adds:
+            adds.pop(rng.randrange(len(adds)))            # as many entries as pairs, one of them on the diagonal
+    elif flavour == "repeat" and pairs:
+        i, j = rng.choice(pairs[:cut])
+        adds.insert(rng.randint(0, len(adds)), [1, 0, i, j, 23])
+    elif flavour == "range":
+        adds.insert(rng.randint(0, len(adds)), [1, 0, rng.choice([n, n + 1, 1]), rng.choice([-1, 0, -2]), 29])
+    cmds += adds
+    reg = 0
+    if two:
+        order = [0, 1] if rng.random() < 0.5 else [1, 0]
+        cmds.append([3, order + ([rng.choice(order)] if rng.random() < 0.3 else [])])
+        reg = 2
+    if rng.random() < 0.5:
+        cmds.append([7, reg])
+        reg += 1
+    cmds += [[4, reg], [5, reg]]
+    return cmds
 
 
 def _gen_script(rng):
@@ -335,7 +395,7 @@ def _run_script(cmds):
 
     from batchie.distance_calculation import ChunkedDistanceMatrix, get_lower_triangular_indices_chunk
 
-    regs, outs, wire = [], [], []
+    regs, outs, wire, obs = [], [], [], []
 
     def attempt(f):
         try:
@@ -381,6 +441,10 @@ def _run_script(cmds):
             k = fix(cmd[1])
             wire.append([5, k])
             res = attempt(lambda: [[_as_int(x) for x in row] for row in regs[k].to_dense().tolist()])
+            m_ = regs[k]
+            cur_ = int(m_.current_index)
+            obs.append(dict(size=int(m_.size), keys=[(int(r_), int(c_)) for r_, c_ in zip(m_.row_indices[:cur_], m_.col_indices[:cur_])],
+                            vals=[float(x) for x in m_.values[:cur_]], res=res))
         else:
             wire.append(cmd)
             res = attempt(lambda: [[int(i), int(j)] for i, j in get_lower_triangular_indices_chunk(cmd[1], cmd[2], cmd[3])])
@@ -390,7 +454,55 @@ def _run_script(cmds):
         outs.append(res)
     dump = [[int(m.size), int(m.chunk_size), int(m.current_index), [int(x) for x in m.row_indices], [int(x) for x in m.col_indices],
              [_as_int(x) for x in m.values]] for m in regs]
-    return wire, [outs, dump]
+    return wire, [outs, dump], obs
+
+
+def _pred_hand_built(obs):
+    """gap review G7.1: 'a matrix missing any pair refuses to be densified' on matrices built by hand through the public class.
+    Judged only for matrices whose stored keys are distinct, strictly lower-triangular and in range (what any family of chunk
+    files can produce, in any order): missing a pair <=> refused, and a densified matrix is symmetric with zero diagonal and
+    carries each stored value at both mirrored cells.  A matrix with a diagonal / repeated / negative key is outside the
+    property (the class accepts such keys: Props/C07.v, C07_to_dense_accepts_ill_formed_refuted); it is only tagged."""
+    pred, tags = None, set()
+    for o in obs:
+        n, keys = o["size"], o["keys"]
+        wf = len(set(keys)) == len(keys) and all(0 <= j < i < n for i, j in keys)
+        if not wf:
+            tags.add("ill-formed-densified" if o["res"][0] == 0 else "ill-formed-refused")
+            continue
+        complete = len(keys) == n * (n - 1) // 2
+        if o["res"][0] == 0:
+            D = o["res"][1]
+            if not complete:
+                pred = "hand-built matrix of size %d missing a pair was densified (stored keys %r)" % (n, keys)
+            else:
+                exp = [[0] * n for _ in range(n)]
+                for (i, j), v in zip(keys, o["vals"]):
+                    exp[i][j] = exp[j][i] = int(v)
+                if D != exp:
+                    pred = "hand-built complete matrix densified to %r, stored values give %r" % (D, exp)
+            tags.add("hand-built-densified")
+        else:
+            if complete and n >= 0:
+                pred = "hand-built complete matrix of size %d refused: error tag %r" % (n, o["res"][1])
+            tags.add("hand-built-refused")
+    return pred, sorted(tags)
+
+
+def extra(tier):
+    """the witness of C07_to_dense_accepts_ill_formed_refuted (Props/C07.v) replayed on the implementation"""
+    from batchie.distance_calculation import ChunkedDistanceMatrix
+
+    def go():
+        m = ChunkedDistanceMatrix(3)
+        m.add_value(1, 1, 5.0)
+        m.add_value(2, 2, 7.0)
+        m.add_value(1, 0, 3.0)
+        return [[int(x) for x in row] for row in m.to_dense().tolist()]
+    got = impl_call(go)
+    want = [[0, 3, 0], [3, 5, 0], [0, 0, 7]]
+    return [("props-witness-ill-formed-densified", got == want,
+             "ChunkedDistanceMatrix(3) + add_value(1,1,5), (2,2,7), (1,0,3): to_dense gave %r, the model (Props/C07.v) says %r" % (got, want))]
 
 
 def _save_load(m):
@@ -435,10 +547,11 @@ def run(desc):
         feats = ["chunks"] + (["n_chunks>pairs"] if c > len(expect) else []) + (["trivial"] if n < 2 else []) + (["remainder"] if len(expect) % c else [])
         return dict(wire=[0, n, c], impl=chunks, pred=pred, features=feats)
     if k == "script":
-        wire, impl = _run_script(desc["script"])
+        wire, impl, obs = _run_script(desc["script"])
         errs = sorted({"err%d" % o[1] for o in impl[0] if o[0] == 1})
         ops = sorted({"op%d" % c[0] for c in wire})
-        return dict(wire=[5, wire], impl=impl, pred=None, features=["script"] + errs + ops + (["trivial"] if len(wire) < 2 else []))
+        pred, tags = _pred_hand_built(obs)
+        return dict(wire=[5, wire], impl=impl, pred=pred, features=["script"] + errs + ops + tags + (["trivial"] if len(wire) < 2 else []))
     if k in ("pipeline", "srcpipeline"):
         n, c, order, table = desc["n"], desc["c"], desc["order"], desc["table"]
         d = _tmpdir()
@@ -514,7 +627,53 @@ def run(desc):
             return None
         feats = ["mse", "sigmoid" if sg else "raw"] + (["identical"] if a == b else []) + (["trivial"] if len(a) == 0 else [])
         return dict(wire=[2, sg, [frac(x) for x in a], [frac(x) for x in b]], impl=impl, pred=pred, features=feats, cmp=cmp_result(cmpf))
+    if k == "mse_edge":
+        return _run_mse_edge(desc)
     raise ValueError(k)
+
+
+def _run_mse_edge(desc):
+    """MSEDistance outside the pipeline's inputs; implementation only (the model is over rationals of one length).  Written down,
+    not judged: (1) sigmoid=False on identical predictions containing +-inf gives NaN (inf - inf), sigmoid=True gives 0.0
+    (expit(+-inf) = 1 / 0); (2) unequal lengths: a length-1 vector is broadcast silently (the model and the link say: equal
+    lengths only, Mse.mse_distance = Err 7), other unequal lengths raise ValueError.  Judged: symmetry and non-negativity
+    whenever a number comes back, and 0 on identical FINITE-after-transformation predictions."""
+    import warnings
+
+    from batchie.distance.mse import MSEDistance
+
+    a, b, sg = [float(x) for x in desc["a"]], [float(x) for x in desc["b"]], desc["sigmoid"]
+    A, B = np.array(a, dtype=float), np.array(b, dtype=float)
+    with warnings.catch_warnings():
+        warnings.simplefilter("ignore")
+        v = impl_call(lambda: float(MSEDistance(sigmoid=sg).distance(A, B)))
+        v2 = impl_call(lambda: float(MSEDistance(sigmoid=sg).distance(B, A)))
+    feats = ["mse-edge", "sigmoid" if sg else "raw"]
+    pred = None
+    nonfinite = any(x in (float("inf"), float("-inf")) for x in a + b)
+    if len(a) != len(b):
+        feats.append("unequal-lengths")
+        if isinstance(v, ImplError):
+            feats.append("unequal-lengths-refused")
+            if len(a) == 1 or len(b) == 1:
+                pred = "harness expectation: a length-1 prediction is broadcast, got %r" % (v,)
+        else:
+            feats.append("broadcast-accepted")
+            if not (len(a) == 1 or len(b) == 1):
+                pred = "metric returned %r on predictions of lengths %d and %d" % (v, len(a), len(b))
+    if nonfinite:
+        feats.append("non-finite")
+    if not isinstance(v, ImplError):
+        if isinstance(v2, ImplError) or not (v == v2 or (v != v and v2 != v2)):
+            pred = "metric not symmetric: %r / %r" % (v, v2)
+        if v < 0:
+            pred = "metric negative"
+        if a == b and v != 0:
+            if v != v and not sg and nonfinite:
+                feats.append("identical-nonfinite-nan")       # documented: inf - inf
+            else:
+                pred = "metric %r on identical predictions" % (v,)
+    return dict(wire=None, impl=None, pred=pred, features=feats)
 
 
 def _param_metric_cls():
